@@ -96,6 +96,7 @@ func specDefaultKnown(t parser.ValueType) bool {
 //
 //@ func (*transpiler).evaluatePrint
 //@   loop @"range print.Expressions()" invariant[C04] one-evaluation-per-operand: calls(evaluateExpression) == rangeindex + 1 && calls(Print) == 0 && forall(k, 0, rangeindex + 1, arg(evaluateExpression, k, 1) == print.Expressions()[k] && arg(evaluateExpression, k, 2))
+//@   loop @"range print.Expressions()" invariant[C01,C04] the-values-of-operand-k-come-last: rangeindex >= 0 ==> len(values) >= len(res(evaluateExpression, rangeindex, 0).values) && forall(j, 0, len(res(evaluateExpression, rangeindex, 0).values), values[len(values) - len(res(evaluateExpression, rangeindex, 0).values) + j] == res(evaluateExpression, rangeindex, 0).values[j])
 //@   ensures[C04] each-operand-once-in-order: result == nil ==> calls(evaluateExpression) == len(print.Expressions()) && forall(k, 0, len(print.Expressions()), arg(evaluateExpression, k, 1) == print.Expressions()[k]) && calls(Print) == 1
 //@   ensures[C04] print-after-all-operands: result == nil && len(print.Expressions()) > 0 ==> seq(evaluateExpression, len(print.Expressions()) - 1) < seq(Print, 0)
 //
